@@ -50,6 +50,16 @@ def cls_tagged(prefix):
     return f
 
 
+def cls_both(prefix):
+    """object-level components use the default classes, full-stack lines the tagged ones"""
+    tagged = cls_tagged(prefix)
+    def f(verdict, case):
+        if case and '"c":"core"' in case[-1][:40]:
+            return tagged(verdict, case)
+        return cls_default(verdict, case)
+    return f
+
+
 # a difference between the stepped Core model and the implementation is reported by the properties whose theorems are
 # about that model
 DIFF_OWNERS = {"C03"}
@@ -106,8 +116,8 @@ PROPS = {
     "C01": dict(
         module="YkProps.C01",
         leancheck=["YkModel.Node", "YkProofs.Node", "YkProps.C01"],
-        runs=[dict(comp="node", quick=3200, thorough=100000)],
-        classify=cls_default,
+        runs=[dict(comp="node", quick=3200, thorough=100000), dict(comp="core", quick=240, thorough=6000)],
+        classify=cls_both("C01"),
         nontrivial=lambda line: '"op":"reset"' not in line and '"op":"setSchedulable"' not in line,
         rule="node: random histories (<=50 ops) of every public ledger operation of objects.Node — TryAddAllocation, AddAllocation (forced, foreign and not), RemoveAllocation, UpdateForeignAllocation, "
              "in-place resource update (SetAllocatedResource + UpdateAllocatedResource as partition.UpdateAllocation does), ReplaceAllocation with delta = real - placeholder, SetCapacity, SetOccupiedResource, SetSchedulable — "
@@ -126,8 +136,8 @@ PROPS = {
     "C02": dict(
         module="YkProps.C02",
         leancheck=["YkModel.Queue", "YkProofs.Queue", "YkProps.C02"],
-        runs=[dict(comp="queue", quick=2400, thorough=64000)],
-        classify=cls_default,
+        runs=[dict(comp="queue", quick=2400, thorough=64000), dict(comp="core", quick=240, thorough=6000)],
+        classify=cls_both("C02"),
         nontrivial=lambda line: '"op":"reset"' not in line,
         rule="queue: random queue trees (2..8 queues, chains and fans, sparse max/guaranteed with undefined/0/positive entries per type, maxApplications) built with NewConfiguredQueue; <=48 ops per tree: TryIncAllocatedResource, IncAllocatedResource (forced), DecAllocatedResource, SetResources, SetMaxResource(root), canRunApp / incRunningApps / decRunningApps / setAllocatingAccepted (hooks), SetMaxRunningApps; after every op the whole tree (allocated, raw max, guaranteed, headroom, max headroom, effective max, counters) is dumped, compared with the model and the property clauses are evaluated on the dump. non-trivial = not a reset line; distinct = distinct protocol lines",
         trusted=["exact integer arithmetic in the queue model (no quantity saturates)",
@@ -143,8 +153,8 @@ PROPS = {
     "C11": dict(
         module="YkProps.C11",
         leancheck=["YkModel.Queue", "YkProofs.Queue", "YkProps.C11", "YkProps.C10"],
-        runs=[dict(comp="queue", quick=2400, thorough=64000)],
-        classify=cls_default,
+        runs=[dict(comp="queue", quick=2400, thorough=64000), dict(comp="core", quick=240, thorough=6000)],
+        classify=cls_both("C11"),
         nontrivial=lambda line: '"op":"reset"' not in line,
         rule="queue: random queue trees (2..8 queues, chains and fans, sparse max/guaranteed with undefined/0/positive entries per type, maxApplications) built with NewConfiguredQueue; <=48 ops per tree: TryIncAllocatedResource, IncAllocatedResource (forced), DecAllocatedResource, SetResources, SetMaxResource(root), canRunApp / incRunningApps / decRunningApps / setAllocatingAccepted (hooks), SetMaxRunningApps; after every op the whole tree (allocated, raw max, guaranteed, headroom, max headroom, effective max, counters) is dumped, compared with the model and the property clauses are evaluated on the dump. non-trivial = not a reset line; distinct = distinct protocol lines",
         trusted=["which FSM callbacks call incRunningApps/decRunningApps is regenerated from application_state.go (T2) and proved in YkProps/C10.callbacks_tie",
@@ -159,9 +169,9 @@ PROPS = {
     "C10": dict(
         module="YkProps.C10",
         leancheck=["YkModel.AppFsm", "YkProps.C10"],
-        runs=[],
-        classify=cls_default,
-        nontrivial=lambda line: True,
+        runs=[dict(comp="core", quick=240, thorough=6000)],
+        classify=cls_both("C10"),
+        nontrivial=lambda line: '"op":"reset"' not in line,
         rule="the transition table and callback bodies are regenerated from application_state.go (T2) and the theorems re-checked; application-level histories are exercised by the full-stack check",
         trusted=["looplab/fsm semantics: first matching (event, source) transition; same-state transitions are swallowed by HandleApplicationEvent"],
         assumptions=[],
@@ -170,6 +180,69 @@ PROPS = {
         level_note="trusted: Lean kernel, translator T2, looplab/fsm library semantics; application object behaviour (asks/allocations driving the events) is covered by the full-stack monitors",
         technique="Lean 4 proof by exhaustive case analysis over a table regenerated from source (T2)",
         design_ref="DESIGN.md section 4 C10",
+    ),
+    "C04": dict(
+        module="YkProps.C04",
+        leancheck=['YkModel.Shim', 'YkProofs.Shim', 'YkProps.C04'],
+        runs=[dict(comp="core", quick=240, thorough=6000)],
+        classify=cls_tagged("C04"),
+        nontrivial=lambda line: '"op":"reset"' not in line,
+        rule='core: random histories (30..120 operations) on a real ClusterContext driven synchronously through hooks: node create/create-drain/update/drain/undrain/decommission, application add (plain and gang, several users, static and dynamic queues, duplicate ids) / remove, asks (plain, placeholder, task groups, required node, priorities), RM-placed allocations, in-place resizes, foreign allocations add/update/remove, releases by key and of whole applications, scheduling cycles (predicate plugin denying some (ask,node) pairs, reservation delay 0, preemption on), placeholder and state timers fired explicitly, shim confirmations (PLACEHOLDER_REPLACED / TIMEOUT / PREEMPTED) delivered immediately, late, twice or never; 60% of the histories end by releasing and removing everything (drain). After every operation the complete state (nodes, queues, applications with asks/allocations, counters, user/group trackers) and the messages sent to the shim are dumped; the driver evaluates every clause on the dump, the per-step clauses against the previous dump, the shim protocol automaton on the messages, and steps the Core model from the previous dump for the modelled operations. non-trivial = not a reset line; distinct = distinct protocol lines',
+        trusted=['one partition; the harness calls the handler functions of ClusterContext directly (what RMProxy/Scheduler event loops would call) from a single goroutine', 'the asynchronous terminated-application callback is awaited (settle) before the state is dumped', "scheduler decisions (which ask, which node) are taken from the core's own announcements, not predicted"],
+        assumptions=[],
+        level_text="Lean 4 proofs about the protocol automaton (YkModel/Shim.lean) that the driver runs on the SI traffic recorded from the real core: in every view reached by an accepted trace bound keys are pairwise distinct and disjoint from the outstanding asks (exactly-once), a new allocation is accepted iff it is for an outstanding ask of an accepted application on a registered node with an unbound key (or the one echo of a shim-reported placement), a release iff the key is bound or outstanding (repeatable while unconfirmed), answers only to pending submissions, a rejection leaves no trace. The core's traffic is judged by `ShimView.step = none`.",
+        level_note='trusted: Lean kernel; hand-written models tied by correspondence / monitors on the real core only; exact arithmetic; single partition, single goroutine',
+        technique='Lean 4 proofs about a monitor automaton + run-time verification of the real SI traffic with it',
+        design_ref='DESIGN.md section 4 C04',
+    ),
+    "C06": dict(
+        module="YkProps.C06",
+        leancheck=['YkModel.Reserve', 'YkProofs.Reserve', 'YkProps.C06'],
+        runs=[dict(comp="core", quick=240, thorough=6000)],
+        classify=cls_tagged("C06"),
+        nontrivial=lambda line: '"op":"reset"' not in line,
+        rule='core: random histories (30..120 operations) on a real ClusterContext driven synchronously through hooks: node create/create-drain/update/drain/undrain/decommission, application add (plain and gang, several users, static and dynamic queues, duplicate ids) / remove, asks (plain, placeholder, task groups, required node, priorities), RM-placed allocations, in-place resizes, foreign allocations add/update/remove, releases by key and of whole applications, scheduling cycles (predicate plugin denying some (ask,node) pairs, reservation delay 0, preemption on), placeholder and state timers fired explicitly, shim confirmations (PLACEHOLDER_REPLACED / TIMEOUT / PREEMPTED) delivered immediately, late, twice or never; 60% of the histories end by releasing and removing everything (drain). After every operation the complete state (nodes, queues, applications with asks/allocations, counters, user/group trackers) and the messages sent to the shim are dumped; the driver evaluates every clause on the dump, the per-step clauses against the previous dump, the shim protocol automaton on the messages, and steps the Core model from the previous dump for the modelled operations. non-trivial = not a reset line; distinct = distinct protocol lines',
+        trusted=['one partition; the harness calls the handler functions of ClusterContext directly (what RMProxy/Scheduler event loops would call) from a single goroutine', 'the asynchronous terminated-application callback is awaited (settle) before the state is dumped', "scheduler decisions (which ask, which node) are taken from the core's own announcements, not predicted"],
+        assumptions=[],
+        level_text='Lean 4 proofs: per task group replaced + timed out (+ cancelled + pending + allocated) = count for every history of placeholder events, hence replaced <= count; the replacement guard (placeholder - real has no negative value) holds iff the real ask is no larger on every type. The swap / timeout / usage clauses are monitored on the real core after every operation (gang clauses of CoreState, conservation, node ledger) with gang-biased histories.',
+        level_note='trusted: Lean kernel; hand-written models tied by correspondence / monitors on the real core only; exact arithmetic; single partition, single goroutine',
+        technique='Lean 4 invariant proof over placeholder event histories + monitors on the real core',
+        design_ref='DESIGN.md section 4 C06',
+    ),
+    "C09": dict(
+        module="YkProps.C09",
+        leancheck=['YkModel.Reserve', 'YkProofs.Reserve', 'YkProps.C09'],
+        runs=[dict(comp="core", quick=240, thorough=6000)],
+        classify=cls_tagged("C09"),
+        nontrivial=lambda line: '"op":"reset"' not in line,
+        rule='core: random histories (30..120 operations) on a real ClusterContext driven synchronously through hooks: node create/create-drain/update/drain/undrain/decommission, application add (plain and gang, several users, static and dynamic queues, duplicate ids) / remove, asks (plain, placeholder, task groups, required node, priorities), RM-placed allocations, in-place resizes, foreign allocations add/update/remove, releases by key and of whole applications, scheduling cycles (predicate plugin denying some (ask,node) pairs, reservation delay 0, preemption on), placeholder and state timers fired explicitly, shim confirmations (PLACEHOLDER_REPLACED / TIMEOUT / PREEMPTED) delivered immediately, late, twice or never; 60% of the histories end by releasing and removing everything (drain). After every operation the complete state (nodes, queues, applications with asks/allocations, counters, user/group trackers) and the messages sent to the shim are dumped; the driver evaluates every clause on the dump, the per-step clauses against the previous dump, the shim protocol automaton on the messages, and steps the Core model from the previous dump for the modelled operations. non-trivial = not a reset line; distinct = distinct protocol lines',
+        trusted=['one partition; the harness calls the handler functions of ClusterContext directly (what RMProxy/Scheduler event loops would call) from a single goroutine', 'the asynchronous terminated-application callback is awaited (settle) before the state is dumped', "scheduler decisions (which ask, which node) are taken from the core's own announcements, not predicted"],
+        assumptions=[],
+        level_text='Lean 4 proofs over all histories of reserve/unreserve operations of the four-view machine (application, node, queue, partition counter updated as partition.reserve/unReserve do): the views always describe the same set, the counter is its size, an ask holds at most one reservation, a node at most one unless all are required-node asks, a reserved node refuses other asks, unreserve removes the reservation from every view. The same clauses (R1-R5) are evaluated on every state dumped from the real core (reservation delay 0, required-node asks, node removal, preemption).',
+        level_note='trusted: Lean kernel; hand-written models tied by correspondence / monitors on the real core only; exact arithmetic; single partition, single goroutine',
+        technique='Lean 4 invariant proof over a four-view reservation machine + monitors on the real core',
+        design_ref='DESIGN.md section 4 C09',
+    ),
+    "C19": dict(
+        module="YkProps.C19",
+        leancheck=["YkModel.Sort", "YkProofs.Sort", "YkProps.C19"],
+        runs=[dict(comp="sort", quick=1600, thorough=40000)],
+        classify=lambda v, case: [w for w in [p.split()[0] + ("-" + p.split()[1] if p.split()[0] == "diff" else "") for p in (v[4:] if v.startswith("inv ") else v).split(" ;; ") if p.split()] if w.startswith("C19.") or w.startswith("diff")],
+        nontrivial=lambda line: True,
+        rule="sort: (queues) candidate sets of 2..6 sibling queues with many ties (priority, fair share against own guaranteed/fair max, pending) presented to the real sortQueue in two random permutations, for fair/fifo x priority on/off; "
+             "(apps) 2..6 applications (ask priority, submission time, usage share) sorted twice by the real sortApplications (its input is a Go map); (asks) histories of inserts/removes on the real sortedRequests incl. extreme int32 priorities; "
+             "(nodes) histories of <=35 operations on the real NodeCollection (add/remove node, allocate, release, capacity, occupied, foreign allocations, in-place resize, reserve, policy switch) with both iterators read after every operation "
+             "and fresh scores computed with the policy in force. Share / score floats are reported as ranks. distinct = distinct protocol lines; every line is non-trivial (>= 2 candidates or a node history step)",
+        trusted=["float-valued keys (fair share, usage share, node score) are computed by the implementation and enter the model as ranks; IEEE arithmetic is trusted",
+                 "sort.SliceStable is modelled as a stable insertion sort: for a strict weak order every stable sort gives the same result (checked by correspondence)",
+                 "google/btree ordered-set contract"],
+        assumptions=["node resource types limited to vcore and memory (the default weights; two-term float sums are order independent)"],
+        level_text="Lean 4 proofs: a stable sort by an irreflexive transitive comparator yields an inversion-free permutation of the candidates whatever the presentation order (permutation invariance); the queue-priority and the four application comparators are strict weak orders for all keys, "
+                   "the two fair queue comparators are as long as the pending tie-break is not reached, and the tie-break itself is machine-checked NOT to be a weak order (known finding); asks stay in (priority desc, creation time asc) order under insert/remove. "
+                   "Tie: correspondence of the model against the real sort functions on permuted presentations + the statement evaluated on the implementation's output; node iteration is checked by monitors only (visit once, unreserved view, fresh order).",
+        level_note="trusted: Lean kernel; hand-written comparators tied by correspondence; floats enter as ranks; node iteration order is a monitor (no theorem)",
+        technique="Lean 4 proof (strict weak orders, stable sort permutation invariance) + differential correspondence over permuted presentations",
+        design_ref="DESIGN.md section 4 C19",
     ),
 }
 
